@@ -99,7 +99,7 @@ func runC05(c *Ctx) {
 			points = append(points, []int{a, a + 1 + c.Rng.Intn(10)})
 		}
 		// mrp killed during / right after post-processing (negative = PostProcessCrash mode)
-		points = append(points, []int{-1}, []int{-2})
+		points = append(points, []int{-1}, []int{-2}, []int{-3})
 		for pi, pt := range points {
 			s := &TASpec{Name: fmt.Sprintf("%s#crash%v", p.Name, pt), Src: p.Src, MroPaths: p.MroPaths, Seed: c.Seed, StepBias: 0.4,
 				StartSeparate: 0.3, CrashAt: pt, CrashSurvive: 0.3, WantEvents: true, WantTrace: true, TimeoutS: 40}
